@@ -3,6 +3,8 @@
   names followed by one record per row with the given field texts; a multi-table export is, per table in order, one header
   line `# Database: <db>, Table: <table>` (a single line, the names under the comment convention of Spec.SqlExport), the
   table's CSV, and one empty line.  Knows nothing about pgread; the expected field texts are an argument.
+  Which text stands for a value is left to the tool, with one demand (`valuesKept`): only NULL (a missing key or nil) and
+  the empty string may be read back as the empty field — no other value may silently disappear.
 -/
 import PgVerif.Spec.CsvParse
 import PgVerif.Spec.SqlExport
@@ -15,6 +17,17 @@ def tableVerdict (expected : Records) (text : Bytes) : String :=
   match Csv.parse text with
   | none => "bad:csv"
   | some recs => if recs == expected then "ok" else "bad:records"
+
+/-- no value is dropped: in the records read back (header first), a field may be empty only where the row has no value
+for the column (missing key, or nil) or the value is the empty string -/
+def valuesKept (t : Export.TableDump) (recs : Records) : Bool :=
+  (t.rows.zip (recs.drop 1)).all fun (p : Export.Row × List Bytes) =>
+    (t.columns.zip p.2).all fun (q : Export.ColumnInfo × Bytes) =>
+      match p.1.get q.1.name with
+      | none => true
+      | some .nil => true
+      | some (.str []) => true
+      | some _ => !q.2.isEmpty
 
 /-- every way of writing `bs` as `x ++ sep ++ y` -/
 def splits (sep : Bytes) : Bytes → List (Bytes × Bytes)
